@@ -243,3 +243,11 @@ META["C20"]["rule"] += (" queue-cancel-burst profile: per round one goroutine en
                         "of yields; at rest the waiter must have returned. The end-to-end tier also plays playlists that grow with every poll and playlists "
                         "carrying a preload hint without CAN-BLOCK-RELOAD.")
 META["C10"]["rule"] += (" race-stub profile: the same scenario built with the race detector.")
+
+META["C05"]["rule"] += (" go-on profile: the application keeps writing after Write errors (an H264 stream whose PPS arrives late or never); whatever is listed then is "
+                        "fetchable. In the held profile every segment below the window of a playlist served while the writer is parked inside a rotation must "
+                        "not answer with media.")
+META["C12"]["rule"] += (" Transport faults may wrap context.DeadlineExceeded (as http.Client.Timeout does); status 206 is a fault on playlist requests.")
+META["C13"]["rule"] += (" Further variants: an audio rendition with only an unsupported codec; EXT-X-GAP on segments including the last.")
+META["C17"]["rule"] += (" A longer file of the same name may pre-exist in the directory; readers are also drained with io.Copy.")
+META["C16"]["rule"] += (" The answer to the request that waited for the first content equals the answer to a request issued at the same rest point.")
